@@ -52,6 +52,7 @@ def check(ctx):
         ctx.guard("C04.a FORMATTER", q.split(".")[-1], lambda q=q: check_formatter(ctx, ctx.P.cls(q)))
     shared(ctx)
     ctx.guard("C04.c RANGE", "MovingWindow|threshold-nonnegative", lambda: mw_threshold_nonnegative(ctx))
+    ctx.guard("C04.c RANGE", "MovingWindow|threshold-nonnegative|tuned", lambda: mw_tuned_threshold_nonnegative(ctx))
     ctx.expect_min("C04.a FMT-POSTDOM", sum(1 for o in ctx.obs if o.rule == "C04.a FMT-POSTDOM" and o.status == "HOLDS"), 7)
     ctx.expect_min("C04", len([o for o in ctx.obs if o.status == "HOLDS"]), 40)
 
@@ -311,6 +312,48 @@ def mw_threshold_nonnegative(ctx):
             ctx.undecided(rule, "MovingWindow|threshold-nonnegative", f.loc(), "the default threshold is the result of a call without a model", found=found)
             continue
         ctx.check(ok, rule, "MovingWindow|threshold-nonnegative", f.loc(), "the default threshold is non-negative by construction (the scores are 0 in the unscored margins: a negative threshold reports positions outside [bandwidth, n - bandwidth])", found=found, expected="max(<formula>, 0)")
+
+
+def mw_tuned_threshold_nonnegative(ctx):
+    """F-29 (known finding).  The TUNED threshold is the (1 - level) quantile of the training scores.  Cost-based scores
+    carry rounding noise of either sign; on constant data the quantile comes out as about -1e-17, the zero-padded margins
+    exceed it and position 0 is reported.  The obligation asks for what would rule that out at this site: the tuned
+    threshold is non-negative by construction.  (Clamping it contradicts the letter of C15 - "the tuned threshold IS the
+    quantile" - by a rounding error, the other repair restructures the extraction; neither is a small safe patch, see
+    DESIGN 10.3.)"""
+    rule = "C04.c RANGE"
+    key = "MovingWindow|threshold-nonnegative|tuned"
+    from .common import return_exprs
+
+    cls = ctx.P.public_class(CD, "MovingWindow")
+    f = ctx.P.lookup_method(cls, "_tune_threshold")
+    if f is None:
+        ctx.undecided(rule, key, cls.module.relpath, "MovingWindow._tune_threshold not found (anchor vanished)")
+        return
+    assigned = {}
+    for n in ast.walk(f.node):
+        if isinstance(n, ast.Assign) and len(n.targets) == 1 and isinstance(n.targets[0], ast.Name):
+            assigned.setdefault(n.targets[0].id, []).append(n.value)
+
+    def clamped(e, depth=0):
+        if isinstance(e, ast.Name) and len(assigned.get(e.id, [])) == 1 and depth < 4:
+            return clamped(assigned[e.id][0], depth + 1)
+        if isinstance(e, ast.Call):
+            fn = ast.unparse(e.func)
+            if fn in ("max", "np.maximum", "numpy.maximum", "np.fmax") and any(isinstance(a, ast.Constant) and isinstance(a.value, (int, float)) and a.value >= 0 for a in e.args):
+                return True
+            if fn in ("float", "np.float64") and e.args:
+                return clamped(e.args[0], depth + 1)
+            if fn in ("np.clip", "numpy.clip") and len(e.args) >= 2 and isinstance(e.args[1], ast.Constant) and isinstance(e.args[1].value, (int, float)) and e.args[1].value >= 0:
+                return True
+        return False
+
+    rets = return_exprs(f)
+    if not rets:
+        ctx.undecided(rule, key, f.loc(), "_tune_threshold has no return expression")
+        return
+    for r in rets:
+        ctx.check(clamped(r), rule, key, f.loc(r), "the tuned threshold is non-negative by construction (the scores are 0 in the unscored margins: a threshold of -1e-17, the quantile of cost-based scores of constant data, reports position 0)", found=norm_src(r)[:80] + (" = " + norm_src(assigned[r.id][0])[:80] if isinstance(r, ast.Name) and len(assigned.get(r.id, [])) == 1 else ""), expected="max(np.quantile(scores, 1 - level), 0.0) - or an extraction that looks at the scored positions only")
 
 
 def newest_start(ctx):
